@@ -583,6 +583,61 @@ func (m *Machine) reflectValueStub(name string, fn *ssa.Function, args []Val) (V
 		k, _ := m.asRType(args[0])
 		e, _ := m.asRType(args[1])
 		return m.mkRType(types.NewMap(k, e)), true
+	case "(reflect.Value).MapKeys":
+		_, mv := m.rvLoad(args[0])
+		mo := mv.(*MapObj)
+		vt := m.reflectPkg().Type("Value").Type()
+		n := 0
+		if mo != nil {
+			n = len(mo.entries)
+		}
+		es := sizeof(vt)
+		o := m.heap.New(n*es, "reflect.MapKeys")
+		for i := 0; i < n; i++ {
+			m.Store(Ptr{o, i * es}, vt, m.rvOf(mo.typ.Key(), mo.entries[i].k))
+		}
+		return Slice{Ptr{o, 0}, n, n}, true
+	case "(reflect.Value).MapIndex":
+		_, mv := m.rvLoad(args[0])
+		mo := mv.(*MapObj)
+		_, kv := m.rvLoad(args[1])
+		if mo != nil {
+			for _, e := range mo.entries {
+				if m.branch(m.valEq(mo.typ.Key(), e.k, kv)) {
+					return m.rvOf(mo.typ.Elem(), m.Load(Ptr{e.vobj, 0}, mo.typ.Elem())), true
+				}
+			}
+		}
+		return Agg{Ptr{}, Ptr{}, Const(64, 0)}, true
+	case "reflect.ArrayOf":
+		n := m.concInt(args[0].(*Term), "ArrayOf length")
+		t, _ := m.asRType(args[1])
+		if n < 0 {
+			endPath("PANIC", "reflect: negative length passed to ArrayOf")
+		}
+		return m.mkRType(types.NewArray(t, int64(n))), true
+	case "reflect.Copy":
+		dt, dv := m.rvLoad(args[0])
+		st, sv := m.rvLoad(args[1])
+		view := func(t types.Type, v Val, rv Val) (Ptr, int, types.Type) {
+			switch u := t.Underlying().(type) {
+			case *types.Slice:
+				s := v.(Slice)
+				return s.p, s.n, u.Elem()
+			case *types.Array:
+				_, p, _ := m.rvParts(rv)
+				return p, int(u.Len()), u.Elem()
+			}
+			endPath("PANIC", "reflect.Copy of %s", t)
+			return Ptr{}, 0, nil
+		}
+		dp, dn, de := view(dt, dv, args[0])
+		sp, sn, _ := view(st, sv, args[1])
+		n := min(dn, sn)
+		if n > 0 {
+			m.copyCells(dp, sp, n*sizeof(de))
+		}
+		return Const(64, uint64(n)), true
 	case "(reflect.Value).SetMapIndex":
 		_, mv := m.rvLoad(args[0])
 		_, kv := m.rvLoad(args[1])
